@@ -12,6 +12,7 @@ from harness import ribrig
 
 THEOREM_MODULES = ['ExaModel.Props.C04']
 DRIVERS = ['drv_rib']
+TABLES: list[str] = []  # no generated table is used by this property
 ASSUMPTIONS = [
     'adj-rib-out is kept (cache on); routes belong to the families the RIB serves; paths_limit not in force',
     'the peer applies UPDATEs in the order sent (TCP)',
